@@ -3,6 +3,7 @@ package main
 import (
 	"fmt"
 	"go/types"
+	"net/url"
 	"strings"
 
 	"golang.org/x/tools/go/ssa"
@@ -94,7 +95,12 @@ func (m *Machine) variadic(s *State, v Value) []IfaceV {
 }
 
 // fmtIntrinsic handles Sprintf / Sprint / Sscanf / Errorf-style formatting.
-func (m *Machine) fmtIntrinsic(s *State, f *Frame, x *ssa.Call, name string, args []Value) bool {
+func (m *Machine) fmtIntrinsic(s *State, f *Frame, x *ssa.Call, name string, args []Value) (succ []*State, handled bool) {
+	handled = m.fmtIntrinsic0(s, f, x, name, args, &succ)
+	return
+}
+
+func (m *Machine) fmtIntrinsic0(s *State, f *Frame, x *ssa.Call, name string, args []Value, succ *[]*State) bool {
 	switch name {
 	case "fmt.Sprintf":
 		format, ok := m.toGo(s, args[0], types.Typ[types.String])
@@ -132,6 +138,59 @@ func (m *Machine) fmtIntrinsic(s *State, f *Frame, x *ssa.Call, name string, arg
 				return true
 			}
 		}
+		// one symbolic integer argument with few feasible values: enumerate with the solver and fork
+		symIdx := -1
+		for i, a := range va {
+			if _, ok := m.toGo(s, a, nil); !ok {
+				if symIdx >= 0 {
+					symIdx = -2
+					break
+				}
+				symIdx = i
+			}
+		}
+		if symIdx >= 0 {
+			if sv, ok := va[symIdx].v.(Sc); ok && sv.t.w > 0 {
+				vals, complete := s.concretize(sv.t, 8)
+				if complete && len(vals) > 0 {
+					_, signed, _ := intWidth(va[symIdx].typ)
+					var out []*State
+					for k, v := range vals {
+						st := s
+						if k < len(vals)-1 {
+							st = s.clone()
+							m.stats.forks++
+						}
+						st.pc = append(st.pc, m.ctx.Cmp("=", sv.t, m.ctx.BV(v, sv.t.w)))
+						ga := append([]any(nil), goArgs...)
+						if signed {
+							ga[symIdx] = sext(v, sv.t.w)
+						} else {
+							ga[symIdx] = v
+						}
+						st.top().env[x] = m.mkStr(fmt.Sprintf(format.(string), ga...))
+						out = append(out, st)
+					}
+					if len(out) > 1 {
+						*succ = out
+					}
+					m.stubs["fmt.Sprintf with a symbolic integer: solver-enumerated values, one path each"]++
+					return true
+				}
+			}
+		}
+		if format.(string) == "%s-%020d" && len(va) == 2 {
+			if n, ok := va[1].v.(Sc); ok && n.t.w == 64 {
+				if base, ok := va[0].v.(StrV); ok {
+					if parts, ok := m.strParts(base); ok {
+						np := append(append([]segPart(nil), parts...), segPart{lit: m.mkStr("-").b}, segPart{num: n.t})
+						m.stubs["fmt.Sprintf(\"%s-%020d\", s, symbolic) as segmented string"]++
+						f.env[x] = StrV{box: SegStr{np}}
+						return true
+					}
+				}
+			}
+		}
 		if m.lenientFmt {
 			m.stubs["fmt.Sprintf with symbolic arguments in a message/label: empty string"]++
 			f.env[x] = StrV{}
@@ -156,7 +215,7 @@ func (m *Machine) fmtIntrinsic(s *State, f *Frame, x *ssa.Call, name string, arg
 	case "fmt.Sscanf":
 		format, ok := m.toGo(s, args[1], types.Typ[types.String])
 		va := m.variadic(s, args[2])
-		if !ok || format.(string) != "%d" || len(va) != 1 {
+		if !ok || (format.(string) != "%d" && format.(string) != "%020d") || len(va) != 1 {
 			s.fail("unsupported", "Sscanf format")
 			return true
 		}
@@ -184,7 +243,15 @@ func (m *Machine) fmtIntrinsic(s *State, f *Frame, x *ssa.Call, name string, arg
 			return true
 		}
 		var n int64
-		cnt, err := fmt.Sscanf(g.(string), "%d", &n)
+		var cnt int
+		var err error
+		if _, signed, _ := intWidth(et); signed {
+			cnt, err = fmt.Sscanf(g.(string), format.(string), &n)
+		} else {
+			var un uint64
+			cnt, err = fmt.Sscanf(g.(string), format.(string), &un)
+			n = int64(un)
+		}
 		if err != nil {
 			m.nerr++
 			f.env[x] = TupleV{[]Value{Sc{m.ctx.BV(uint64(cnt), 64)}, IfaceV{typ: errT, v: &ErrV{id: m.nerr, msg: "sscanf: " + err.Error()}}}}
@@ -212,3 +279,130 @@ func (m *Machine) fmtIntrinsic(s *State, f *Frame, x *ssa.Call, name string, arg
 	}
 	return false
 }
+
+// SegStr is an opaque string made of literal byte runs and %020d renderings of symbolic uint64s.
+type SegStr struct{ parts []segPart }
+type segPart struct {
+	lit []*Term
+	num *Term // non-nil: 20-digit zero-padded decimal rendering of this 64-bit term
+}
+
+func (m *Machine) strParts(v StrV) ([]segPart, bool) {
+	if v.box == nil {
+		return []segPart{{lit: v.b}}, true
+	}
+	if ss, ok := v.box.(SegStr); ok {
+		return ss.parts, true
+	}
+	return nil, false
+}
+
+// nativeStringFn evaluates a pure library function natively when all its arguments are concrete.
+func (m *Machine) nativeStringFn(s *State, f *Frame, x *ssa.Call, name string, args []Value) bool {
+	str := func(i int) (string, bool) {
+		g, ok := m.toGo(s, args[i], types.Typ[types.String])
+		if !ok || g == nil {
+			return "", false
+		}
+		sv, ok := g.(string)
+		return sv, ok
+	}
+	c := m.ctx
+	switch name {
+	case "strings.HasPrefix", "strings.HasSuffix", "strings.Contains":
+		a, ok1 := str(0)
+		b, ok2 := str(1)
+		if !ok1 || !ok2 {
+			// symbolic bytes, concrete lengths: HasPrefix can be expressed directly
+			if name == "strings.HasPrefix" {
+				sa, sb := args[0].(StrV), args[1].(StrV)
+				if sa.box == nil && sb.box == nil {
+					if len(sb.b) > len(sa.b) {
+						f.env[x] = Sc{c.Bool(false)}
+						return true
+					}
+					r := c.Bool(true)
+					for i := range sb.b {
+						r = c.And(r, c.Cmp("=", sa.b[i], sb.b[i]))
+					}
+					f.env[x] = Sc{r}
+					return true
+				}
+			}
+			return false
+		}
+		var r bool
+		switch name {
+		case "strings.HasPrefix":
+			r = strings.HasPrefix(a, b)
+		case "strings.HasSuffix":
+			r = strings.HasSuffix(a, b)
+		default:
+			r = strings.Contains(a, b)
+		}
+		f.env[x] = Sc{c.Bool(r)}
+		return true
+	case "strings.TrimPrefix", "strings.TrimSuffix":
+		a, ok1 := str(0)
+		b, ok2 := str(1)
+		if !ok1 || !ok2 {
+			return false
+		}
+		if name == "strings.TrimPrefix" {
+			f.env[x] = m.mkStr(strings.TrimPrefix(a, b))
+		} else {
+			f.env[x] = m.mkStr(strings.TrimSuffix(a, b))
+		}
+		return true
+	case "strings.Split":
+		a, ok1 := str(0)
+		b, ok2 := str(1)
+		if !ok1 || !ok2 {
+			return false
+		}
+		parts := strings.Split(a, b)
+		arr := ArrayV{n: len(parts), def: StrV{}, elems: map[int]Value{}}
+		for i, p := range parts {
+			arr.elems[i] = m.mkStr(p)
+		}
+		id := s.alloc(arr)
+		f.env[x] = SliceV{obj: id, len: len(parts), cap: len(parts)}
+		return true
+	case "strings.Index", "strings.LastIndex":
+		a, ok1 := str(0)
+		b, ok2 := str(1)
+		if !ok1 || !ok2 {
+			return false
+		}
+		r := strings.Index(a, b)
+		if name == "strings.LastIndex" {
+			r = strings.LastIndex(a, b)
+		}
+		f.env[x] = Sc{c.BV(uint64(int64(r)), 64)}
+		return true
+	case "net/url.PathEscape":
+		a, ok := str(0)
+		if !ok {
+			return false
+		}
+		f.env[x] = m.mkStr(urlPathEscape(a))
+		return true
+	case "net/url.PathUnescape":
+		a, ok := str(0)
+		if !ok {
+			return false
+		}
+		r, err := urlPathUnescape(a)
+		var ev Value = IfaceV{}
+		if err != nil {
+			m.nerr++
+			ev = IfaceV{typ: x.Type().(*types.Tuple).At(1).Type(), v: &ErrV{id: m.nerr, msg: err.Error()}}
+		}
+		f.env[x] = TupleV{[]Value{m.mkStr(r), ev}}
+		return true
+	}
+	return false
+}
+
+func urlPathEscape(a string) string            { return url.PathEscape(a) }
+func urlPathUnescape(a string) (string, error) { return url.PathUnescape(a) }
